@@ -142,6 +142,12 @@ func strProgram(site, s string) (string, bool) {
 		return "BEGIN { RS = " + s + " } { print NR, $0, RT }", true
 	case "rs-then-read":
 		return "NR == 1 { RS = " + s + " } { print NR, $0 }", true
+	case "rs-regex-then-read":
+		return "BEGIN { RS = \"ab|\\n\" } NR == 1 { RS = " + s + " } { print NR, $0, RT }", true
+	case "rs-mbchar-then-read":
+		return "BEGIN { RS = \"\303\251\" } NR == 1 { RS = " + s + " } { print NR, $0, RT }", true
+	case "fs-regex-then-read":
+		return "BEGIN { FS = \"a+|,\" } NR == 1 { FS = " + s + " } { print NF, $1; $0 = $0; print NF, $2; n = split($0, parts); print n }", true
 	case "fs":
 		return "BEGIN { FS = " + s + " } { print NF, $1 }", true
 	case "fs-then-read":
@@ -195,6 +201,11 @@ func otherProgram(site string) (string, bool) {
 			"printf \"%c|%d|%s|%5.2f \", v, v, v + 0, v; a[v] = v; n++ } print n; x = $0; if ($0) m++; if (x == 0) m++ } END { print m }", true
 	case "getline-other-file-wider":
 		return "{ x = $1; r = (getline line < OTHERFILE); print r, $1, $4, NF; r = (getline < OTHERFILE); print r, $1, $5, NF; print $0 }", true
+	case "format-again-with-fewer-args":
+		return "BEGIN { printf \"%s-%s\\n\", \"a\", \"b\"; x = sprintf(\"%d:%*d|%c\", 1, 4, 2, 65); print x; f = \"%s %s %s\\n\"; printf f, 1, 2, 3 } " +
+			"END { printf \"%s-%s\\n\", \"a\"; x = sprintf(\"%d:%*d|%c\", 1, 4); print x; printf f, 1 }", true
+	case "format-again-with-other-kinds":
+		return "{ printf \"%c|%d|%s|%5.2f|%x\\n\", 65, 66, 67, 68, 69; printf \"%c|%d|%s|%5.2f|%x\\n\", $1, $2, $0, \"x\", -1; printf \"%c|%d|%s|%5.2f|%x\\n\", \"\", u, a[1], 1e300, 1e300 }", true
 	case "getline-var-in-csv":
 		return "{ r = (getline x); print r, x, $1, $2, $3, NF; $2 = \"y\"; print }", true
 	case "recursion":
